@@ -299,34 +299,55 @@ impl<'a> Matcher<'a> {
                     // encoding of the same code point - which of the two is recorded per byte value, so that a
                     // check can demand that the choice does not depend on the neighbouring bytes
                     let r = self.rest();
+                    // iterative backtracking (the text may be 65535 bytes long): `alts` holds, for every high byte
+                    // matched as UTF-8 so far, where to resume with the raw reading if the rest does not match
                     fn walk(exp: &[u8], out: &[u8], used: &mut Vec<(u8, bool)>) -> Option<usize> {
-                        if exp.is_empty() {
-                            return Some(0);
-                        }
-                        let b0 = exp[0];
-                        if b0 < 0x80 {
-                            if out.first() == Some(&b0) {
-                                return walk(&exp[1..], &out[1..], used).map(|n| n + 1);
+                        let (mut i, mut o) = (0usize, 0usize);
+                        // (exp index, out index, used length) of a pending raw alternative
+                        let mut alts: Vec<(usize, usize, usize)> = Vec::new();
+                        loop {
+                            if i == exp.len() {
+                                return Some(o);
                             }
-                            return None;
-                        }
-                        let enc = [0xC0 | (b0 >> 6), 0x80 | (b0 & 0x3F)];
-                        let mark = used.len();
-                        if out.len() >= 2 && out[0] == enc[0] && out[1] == enc[1] {
-                            used.push((b0, true));
-                            if let Some(n) = walk(&exp[1..], &out[2..], used) {
-                                return Some(n + 2);
+                            let b0 = exp[i];
+                            let mut ok = false;
+                            if b0 < 0x80 {
+                                if out.get(o) == Some(&b0) {
+                                    i += 1;
+                                    o += 1;
+                                    ok = true;
+                                }
+                            } else {
+                                let enc = [0xC0 | (b0 >> 6), 0x80 | (b0 & 0x3F)];
+                                let raw_possible = out.get(o) == Some(&b0);
+                                if out.len() >= o + 2 && out[o] == enc[0] && out[o + 1] == enc[1] {
+                                    if raw_possible {
+                                        alts.push((i, o, used.len()));
+                                    }
+                                    used.push((b0, true));
+                                    i += 1;
+                                    o += 2;
+                                    ok = true;
+                                } else if raw_possible {
+                                    used.push((b0, false));
+                                    i += 1;
+                                    o += 1;
+                                    ok = true;
+                                }
                             }
-                            used.truncate(mark);
-                        }
-                        if out.first() == Some(&b0) {
-                            used.push((b0, false));
-                            if let Some(n) = walk(&exp[1..], &out[1..], used) {
-                                return Some(n + 1);
+                            if !ok {
+                                // back to the latest pending raw alternative
+                                match alts.pop() {
+                                    Some((ai, ao, ul)) => {
+                                        used.truncate(ul);
+                                        used.push((exp[ai], false));
+                                        i = ai + 1;
+                                        o = ao + 1;
+                                    }
+                                    None => return None,
+                                }
                             }
-                            used.truncate(mark);
                         }
-                        None
                     }
                     let mut used: Vec<(u8, bool)> = Vec::new();
                     // (long runs of one repeated byte are matched without recursion)
